@@ -383,6 +383,20 @@ def c04(cases, res):
                         for k in range(b + 1, e):
                             if k < len(gaps) and gaps[k] == "K":
                                 out.append(fail("interval-spans-break", case, i, "interval %d-%d over break at %d" % (b, e, k)))
+            # the moment of choosing: the chosen candidate becomes a recorded choice for the highlighted range
+            if prev is not None and state_of(prev) == "Selecting" and prev.snap.get("sel") == "P" and prev.obs \
+                    and prev.obs.get("cands", "-") not in ("-", "PANIC") and state_of(s) == "Entering":
+                pn_s, _, pbody = prev.obs["cands"].partition(":")
+                pcands = pbody.split(",") if pbody else []
+                idx = None
+                if s.op[0] == "select" and s.res == "1":
+                    idx = int(s.op[1])
+                elif is_key(s) and 1 <= key_code(s) <= 10 and not any(key_mods(s)[:2]) and s.res == "Absorb":
+                    idx = int(prev.obs["pg"]) * opts_of(prev)[7] + key_code(s) - 1
+                if idx is not None and idx < len(pcands) and s.snap.get("last") != "Commit":
+                    want = (int(prev.snap["begin"]), int(prev.snap["end"]), "P", tuple(text_key(pcands[idx])))
+                    if want not in sels:
+                        out.append(fail("choice-not-recorded", case, i, "chose %s; recorded choices %s" % (want, sels)))
             if prev is None or not is_key(s) or state_of(prev) not in ("Entering", "EnteringSyllable") \
                     or state_of(s) not in ("Entering", "EnteringSyllable"):
                 continue
